@@ -27,6 +27,9 @@ type Step struct {
 	// HTTP: go through the management API (POST /backup, GET /backups, DELETE /backup?backupID=...)
 	// instead of calling the node directly
 	HTTP bool `json:"http,omitempty"`
+	// NoList: do not list the backups right after this backup / delete step (a listing after every
+	// single change can never show a stale one)
+	NoList bool `json:"nolist,omitempty"`
 	// Spell (delete over HTTP only): how the request names the backup. "" = its decimal id;
 	// "zeros" = the same id with leading zeros (still names it). Everything else names NO
 	// existing backup and must leave the set of backups as it was: "wrap32" = id+2^32,
@@ -39,7 +42,7 @@ type H struct {
 	Steps []Step `json:"steps"`
 }
 
-const rule = "rapid stateful sequences on a single-node RaftNode over RocksDB (executor child): add / bulk, CreateBackup, DeleteBackup(k-th alive), ListBackups — each either on the node or (drawn) through the management API in front of it (POST /backup, GET /backups, DELETE /backup?backupID=<spelling>; the spelling is the id, the id with leading zeros, or one that names NO existing backup: id+2^32, id+2^33, -id, +id, 0x<id>, '<id>abc', '<id> ', empty, a never-issued id, or a wrong parameter name) — restore(k-th alive backup by id, or 'the latest backup') with the real command line (`qed restore --backup-dir --restore-path [--backup-id]`, run in a second child while the node keeps running) into a fresh directory followed by opening a fresh node (fresh raft directory, as the documented procedure does) on it in a second child. Model: backup id -> version and event count at backup time. Oracle: ListBackups = model (ids and metadata = version); delete removes exactly the one named and a request naming no existing backup removes nothing; the restored node reports version v, proves membership of every event <= v and consistency of sampled pairs <= v against the snapshots ORIGINALLY issued (= reference model), answers Exists=false for every later event, and its first accepted insertion is acknowledged with version v+1 and the reference digests. Non-trivial: a restore of a backup that has >=1 insertion after it while >=2 backups are alive. distinct = FNV-64 of the history."
+const rule = "rapid stateful sequences on a single-node RaftNode over RocksDB (executor child): add / bulk, CreateBackup, DeleteBackup(k-th alive), ListBackups — each either on the node or (drawn) through the management API in front of it (POST /backup, GET /backups, DELETE /backup?backupID=<spelling>; the spelling is the id, the id with leading zeros, or one that names NO existing backup: id+2^32, id+2^33, -id, +id, 0x<id>, '<id>abc', '<id> ', empty, a never-issued id, or a wrong parameter name) — restore(k-th alive backup by id, or 'the latest backup') with the real command line (`qed restore --backup-dir --restore-path [--backup-id]`, run in a second child while the node keeps running) into a fresh directory followed by opening a fresh node (fresh raft directory, as the documented procedure does) on it in a second child. Model: backup id -> version and event count at backup time. Listings are made after a drawn half of the backup / delete steps, at every list step and at the end (a listing after every single change could never be stale). Oracle: ListBackups = model (ids and metadata = version); delete removes exactly the one named and a request naming no existing backup removes nothing; the restored node reports version v, proves membership of every event <= v and consistency of sampled pairs <= v against the snapshots ORIGINALLY issued (= reference model), answers Exists=false for every later event, and its first accepted insertion is acknowledged with version v+1 and the reference digests. Non-trivial: a restore of a backup that has >=1 insertion after it while >=2 backups are alive. distinct = FNV-64 of the history."
 
 func TestBackupRestore(t *testing.T) {
 	rec := pbt.NewRec("C16", "TestBackupRestore", rule, "backups are taken of non-empty logs (an empty log has no version)")
@@ -76,9 +79,9 @@ func TestBackupRestore(t *testing.T) {
 				h.Steps = append(h.Steps, Step{Op: "add", Events: es})
 			case "backup":
 				alive++
-				h.Steps = append(h.Steps, Step{Op: "backup", HTTP: rapid.Bool().Draw(rt, "http")})
+				h.Steps = append(h.Steps, Step{Op: "backup", HTTP: rapid.Bool().Draw(rt, "http"), NoList: rapid.Bool().Draw(rt, "nolist")})
 			case "delete":
-				st := Step{Op: "delete", K: rapid.IntRange(0, 7).Draw(rt, "k"), HTTP: rapid.Bool().Draw(rt, "http")}
+				st := Step{Op: "delete", K: rapid.IntRange(0, 7).Draw(rt, "k"), HTTP: rapid.Bool().Draw(rt, "http"), NoList: rapid.Bool().Draw(rt, "nolist")}
 				if st.HTTP {
 					st.Spell = rapid.SampledFrom([]string{"", "", "", "zeros", "wrap32", "wrap32", "wrap33", "neg", "plus", "hex", "junk", "empty", "missing", "unknown", "space"}).Draw(rt, "spell")
 				}
@@ -210,8 +213,10 @@ func exec(h H, rec *pbt.Rec) error {
 			}
 			alive = append(alive, backup{id: nextID, version: uint64(m.Len() - 1)})
 			nextID++
-			if err := checkList(fmt.Sprintf("step %d after backup", si)); err != nil {
-				return err
+			if !s.NoList {
+				if err := checkList(fmt.Sprintf("step %d after backup", si)); err != nil {
+					return err
+				}
 			}
 		case "delete":
 			if len(alive) == 0 {
@@ -261,8 +266,10 @@ func exec(h H, rec *pbt.Rec) error {
 					}
 					alive = append(alive[:k:k], alive[k+1:]...)
 				}
-				if err := checkList(fmt.Sprintf("step %d after DELETE /backup?%s (answered %d; %s)", si, q.Encode(), code, map[bool]string{true: "names backup " + fmt.Sprint(id), false: "names no existing backup"}[names])); err != nil {
-					return err
+				if !s.NoList {
+					if err := checkList(fmt.Sprintf("step %d after DELETE /backup?%s (answered %d; %s)", si, q.Encode(), code, map[bool]string{true: "names backup " + fmt.Sprint(id), false: "names no existing backup"}[names])); err != nil {
+						return err
+					}
 				}
 				continue
 			}
@@ -274,8 +281,10 @@ func exec(h H, rec *pbt.Rec) error {
 				return fmt.Errorf("step %d: DeleteBackup(%d) failed: %s", si, alive[k].id, r.Err)
 			}
 			alive = append(alive[:k:k], alive[k+1:]...)
-			if err := checkList(fmt.Sprintf("step %d after deleting a backup", si)); err != nil {
-				return err
+			if !s.NoList {
+				if err := checkList(fmt.Sprintf("step %d after deleting a backup", si)); err != nil {
+					return err
+				}
 			}
 		case "list":
 			if s.HTTP {
@@ -324,6 +333,9 @@ func exec(h H, rec *pbt.Rec) error {
 				return fmt.Errorf("step %d: restore of backup %d (taken at version %d; log now at %d): %v", si, b.id, b.version, m.Len()-1, err)
 			}
 		}
+	}
+	if err := checkList("at the end of the sequence"); err != nil {
+		return err
 	}
 	rec.Case(h, nt)
 	rec.Count("restores", int64(restores))
